@@ -96,6 +96,9 @@ class Configuration(object):
                 self.ike_configurations[(ikeconf.my_addr, ikeconf.peer_addr)] = ikeconf
             except KeyError as ex:
                 raise ConfigurationError(f'Mandatory parameter {ex} missing for connection "{connection_name}"')
+            except (AttributeError, TypeError, ValueError) as ex:
+                # values of the wrong type or shape (a number where a section is expected, text where a number is...)
+                raise ConfigurationError(f'Invalid value in connection "{connection_name}": {ex}')
 
     def _load_ike_conf(self, name, conf_dict, my_addresses):
         encr = self._load_crypto_algs('encr', conf_dict.get('encr', ['aes256']), _encr_name_to_transform)
